@@ -191,13 +191,13 @@ namespace sim
       return 0;
    }
    template< typename T, typename... Ts >
-   std::uint32_t sid_of( const T& t, const Ts&... /*unused*/ ) noexcept
+   std::uint32_t sid_of( const T& t, const Ts&... ts ) noexcept
    {
-      if constexpr( std::is_same_v< std::decay_t< T >, sim_state > ) {
+      if constexpr( std::is_base_of_v< sim_state, std::decay_t< T > > ) {
          return t.id;
       }
       else {
-         return 0;
+         return sid_of( ts... );
       }
    }
 
